@@ -54,10 +54,12 @@ CardRuleNames(c) ==
       [] OTHER -> {}
 \* value atoms per rule (concretised by the harness): small, zero, a 32-bit boundary and a value only 64 bits hold
 Values(k, r) ==
-    CASE r \in {"minLength", "maxLength", "minItems", "maxItems", "minPairs", "maxPairs"} -> {"0", "1", "5"}
+    \* lengths and counts are uint64 in the schema: "max64" = 2^64 - 1 is a legal literal (and 2^63 the first an int64 cannot hold)
+    CASE r \in {"minLength", "maxLength", "minItems", "maxItems", "minPairs", "maxPairs"} -> {"0", "1", "5", "max64", "min63"}
       [] r = "pattern" -> {"re-simple", "re-slash"}
       [] r \in {"exclusiveMinimum", "exclusiveMaximum", "uniqueItems", "const"} -> {"true", "false"}
       [] r \in {"minimum", "maximum"} /\ k \in {"int32", "uint32"} -> {"0", "1", "max31"}
+      \* (IntegerField.Rules.minimum / maximum are int64 in the schema, also for UINT64 fields: 2^64 - 1 is not expressible)
       [] r \in {"minimum", "maximum"} /\ k \in {"int64", "uint64"} -> {"0", "1", "max31", "big33"}
       [] r \in {"minimum", "maximum"} /\ k \in {"float32", "float64"} -> {"0", "1", "1.5"}
       [] r \in {"minimum", "maximum"} /\ k = "date" -> {"date"}
@@ -127,7 +129,7 @@ Next ==
     \/ \E p \in Presences : PickPresence(p)
     \/ \E r \in {"minLength", "maxLength", "pattern", "minimum", "maximum", "exclusiveMinimum", "exclusiveMaximum", "const", "in", "notIn",
                  "minItems", "maxItems", "uniqueItems", "minPairs", "maxPairs"} :
-          \E v \in {"0", "1", "5", "re-simple", "re-slash", "true", "false", "max31", "big33", "1.5", "date", "dec", "first-option"} : AddRule(r, v)
+          \E v \in {"0", "1", "5", "re-simple", "re-slash", "true", "false", "max31", "big33", "max64", "min63", "1.5", "date", "dec", "first-option"} : AddRule(r, v)
     \/ \E f \in Faults : InjectFault(f)
     \/ Finish
 
